@@ -90,6 +90,29 @@ Theorem C14_replace_entry : forall sanitize repl convert d r,
   det_name (e_det (replace_def sanitize repl convert d)) = None.
 Proof. exact replace_entry. Qed.
 
+(* the key is the sanitised definition NAME; the schema's metadata (title) plays no part:
+   a titled definition named in a replacement is replaced, a definition merely TITLED like a
+   replacement key is not; the key is what Name::Required naming gives the definition's own type *)
+Theorem C14_replace_lookup_ignores_title : forall sanitize repl convert n t,
+  replace_key sanitize (mkDef n t) = sanitize n /\
+  get_type_name sanitize (NRequired n) t = Some (replace_key sanitize (mkDef n t)) /\
+  (forall r, assoc (sanitize n) repl = Some r ->
+     replace_definition sanitize repl convert (mkDef n t) = native_entry r) /\
+  (assoc (sanitize n) repl = None ->
+     replace_definition sanitize repl convert (mkDef n t) = convert (mkDef n t)) /\
+  (forall t', (exists r, replace_definition sanitize repl convert (mkDef n t) = native_entry r /\
+                         assoc (sanitize n) repl = Some r) <->
+              (exists r, replace_definition sanitize repl (fun d => convert (mkDef (d_name d) t)) (mkDef n t') = native_entry r /\
+                         assoc (sanitize n) repl = Some r)).
+Proof. exact replace_lookup_ignores_title. Qed.
+
+(* non-vacuity / sensitivity: deriving the key with Name::Suggested (title first) is another function *)
+Theorem C14_replace_key_suggested_differs : exists (sanitize : ustring -> ustring) (repl : list (ustring * replacement)) n t (r : replacement),
+  assoc (sanitize n) repl = Some r /\
+  get_type_name sanitize (NSuggested n) t <> Some (replace_key sanitize (mkDef n t)) /\
+  (match get_type_name sanitize (NSuggested n) t with Some k => assoc k repl | None => None end) = None.
+Proof. exact suggested_key_differs. Qed.
+
 (* ---- conversion: FULL statement (not provable without a model of the converter):
           forall document, forall subschema s' at a type position, strip s' = strip s ->
           the type id typify assigns to s' is the native entry of the conversion.
